@@ -163,6 +163,7 @@ class Selector(object):
             warnings.warn(DeprecationWarning(msg))
 
         self._variables = kwargs.pop('variables', None)
+        self._namespaces = namespaces
         self.parser = (parser or XPath2Parser)(namespaces, **kwargs)
         self.path = path
         self.root_token = self.parser.parse(path)
@@ -189,6 +190,8 @@ class Selector(object):
         """
         if 'schema' not in kwargs:
             kwargs['schema'] = self.parser.schema
+        if 'namespaces' not in kwargs:
+            kwargs['namespaces'] = self._namespaces  # as select() / iter_select() do
         if 'variables' not in kwargs and self._variables:
             kwargs['variables'] = self._variables
 
@@ -207,6 +210,8 @@ class Selector(object):
         """
         if 'schema' not in kwargs:
             kwargs['schema'] = self.parser.schema
+        if 'namespaces' not in kwargs:
+            kwargs['namespaces'] = self._namespaces  # as select() / iter_select() do
         if 'variables' not in kwargs and self._variables:
             kwargs['variables'] = self._variables
 
